@@ -1,8 +1,9 @@
 //! Whole runs of find against the composed specification (spec/FindSem.tla): random trees with measured
 //! attributes x random expressions over real tests and output actions.
-//! Input: {tree, roots, cfg, words:[{k:"op",t} | {k:"test",q:{..}} | {k:"glob",on,pat,fold} | {k:"const",v} | {k:"prune"} | {k:"quit"}
-//!         | {k:"print",delim} | {k:"printf",fmt}]}
-//! Observation: {out:[bytes], exit, attrs:[..]}
+//! Input: {tree (nodes may carry age:[s,ns] = now - mtime), roots, cfg (+ syn, nowoff:[s,ns]),
+//!         words:[{k:"op",t} | {k:"test",q:{..}} | {k:"glob",on,pat,fold} | {k:"regex",ast,fold,text} | {k:"const",v} | {k:"prune"}
+//!         | {k:"quit"} | {k:"print",delim,file} | {k:"printf",fmt,file}]}   file: 0 = standard output, 1|2 = -fprint* to ../F1 | ../F2
+//! Observation: {out:[bytes], files:[{there,b}..], exit, diag, attrs:[..], now:[s,ns], users:[uid..], groups:[gid..]}
 use super::pglob::cps_to_string;
 use super::pprintf::{depth_args, measure, mode_args};
 use super::Prop;
@@ -20,6 +21,35 @@ impl Default for PSem {
     fn default() -> Self {
         PSem { sb: Sandbox::new("psem"), counter: 0 }
     }
+}
+
+fn norm_ts(t: (i64, i64)) -> (i64, i64) {
+    let (mut s, mut n) = t;
+    while n < 0 {
+        n += 1_000_000_000;
+        s -= 1;
+    }
+    while n >= 1_000_000_000 {
+        n -= 1_000_000_000;
+        s += 1;
+    }
+    (s, n)
+}
+
+/// Set the modification time of the entry itself (not of what a link points to); the access time is left alone.
+fn set_mtime(p: &std::path::Path, m: (i64, i64)) {
+    use std::os::unix::ffi::OsStrExt;
+    let c = std::ffi::CString::new(p.as_os_str().as_bytes()).unwrap();
+    let ts = [libc::timespec { tv_sec: 0, tv_nsec: libc::UTIME_OMIT }, libc::timespec { tv_sec: m.0, tv_nsec: m.1 }];
+    unsafe { libc::utimensat(libc::AT_FDCWD, c.as_ptr(), ts.as_ptr(), libc::AT_SYMLINK_NOFOLLOW) };
+}
+
+/// The user and group ids the system's databases know (first three fields of /etc/passwd and /etc/group).
+fn known_ids() -> (Vec<u64>, Vec<u64>) {
+    let ids = |f: &str| -> Vec<u64> {
+        std::fs::read_to_string(f).unwrap_or_default().lines().filter_map(|l| l.split(':').nth(2).and_then(|x| x.parse().ok())).collect()
+    };
+    (ids("/etc/passwd"), ids("/etc/group"))
 }
 
 fn sign(form: &str) -> &'static str {
@@ -47,10 +77,29 @@ pub fn word_args(w: &Value, tree: &[Node], a: &mut Vec<String>) {
         "const" => a.push(if w["v"].as_bool().unwrap_or(true) { "-true".into() } else { "-false".into() }),
         "prune" => a.push("-prune".into()),
         "quit" => a.push("-quit".into()),
-        "print" => a.push(if w["delim"].as_u64() == Some(0) { "-print0".into() } else { "-print".into() }),
+        "print" => {
+            let f = w["file"].as_u64().unwrap_or(0);
+            let zero = w["delim"].as_u64() == Some(0);
+            if f == 0 {
+                a.push(if zero { "-print0".into() } else { "-print".into() });
+            } else {
+                a.push(if zero { "-fprint0".into() } else { "-fprint".into() });
+                a.push(format!("../F{}", f));
+            }
+        }
         "printf" => {
-            a.push("-printf".into());
+            let f = w["file"].as_u64().unwrap_or(0);
+            if f == 0 {
+                a.push("-printf".into());
+            } else {
+                a.push("-fprintf".into());
+                a.push(format!("../F{}", f));
+            }
             a.push(cps_to_string(&w["fmt"]));
+        }
+        "regex" => {
+            a.push(if w["fold"].as_bool().unwrap_or(false) { "-iregex".into() } else { "-regex".into() });
+            a.push(cps_to_string(&w["text"]));
         }
         "glob" => {
             let fold = w["fold"].as_bool().unwrap_or(false);
@@ -82,8 +131,20 @@ pub fn word_args(w: &Value, tree: &[Node], a: &mut Vec<String>) {
                 }
                 "uid" | "gid" | "links" | "size" => {
                     a.push(format!("-{}", p));
-                    a.push(format!("{}{}{}", sign(t["form"].as_str().unwrap_or("eq")), t["n"].as_u64().unwrap_or(0), if p == "size" { "c" } else { "" }));
+                    let unit = if p == "size" { t.get("unit").and_then(|u| u.as_str()).unwrap_or("c") } else { "" };
+                    a.push(format!("{}{}{}", sign(t["form"].as_str().unwrap_or("eq")), t["n"].as_u64().unwrap_or(0), unit));
                 }
+                "age" => {
+                    a.push(format!("-{}{}", t["kind"].as_str().unwrap_or("m"), if t["unit"] == "day" { "time" } else { "min" }));
+                    a.push(format!("{}{}", sign(t["form"].as_str().unwrap_or("eq")), t["n"].as_u64().unwrap_or(0)));
+                }
+                "newer" => {
+                    let (x, y) = (t["x"].as_str().unwrap_or("m"), t["y"].as_str().unwrap_or("m"));
+                    a.push(if x == "m" && y == "m" { "-newer".to_string() } else if x == "c" && y == "m" { "-cnewer".to_string() } else { format!("-newer{}{}", x, y) });
+                    a.push(node_path(tree, t["ref"].as_u64().unwrap_or(1) as usize).to_string_lossy().into_owned());
+                }
+                "nouser" => a.push("-nouser".into()),
+                "nogroup" => a.push("-nogroup".into()),
                 "empty" => a.push("-empty".into()),
                 "samefile" => {
                     a.push("-samefile".into());
@@ -105,6 +166,17 @@ impl Prop for PSem {
         let dir = fresh_case_dir(&self.sb, &mut self.counter);
         let tree = parse_tree(&input["tree"]);
         materialize(&dir, &tree);
+        // the injected clock: the real time after the tree was made, plus the offset of the input; modification
+        // times are set relative to it (a node's "age"), change times are whatever they are
+        let rn = std::time::SystemTime::now().duration_since(std::time::UNIX_EPOCH).unwrap();
+        let off = &input["cfg"]["nowoff"];
+        let now = norm_ts((rn.as_secs() as i64 + 2 + off[0].as_i64().unwrap_or(0), off[1].as_i64().unwrap_or(0)));
+        for (idx, n) in tree.iter().enumerate() {
+            if let Some(age) = n.extra.get("age").filter(|a| a.is_array()) {
+                let t = norm_ts((now.0 - age[0].as_i64().unwrap_or(0), now.1 - age[1].as_i64().unwrap_or(0)));
+                set_mtime(&dir.join(node_path(&tree, idx + 1)), t);
+            }
+        }
         let attrs = measure(&dir, &tree);
         let cfg = &input["cfg"];
         let mut args: Vec<String> = vec![];
@@ -114,6 +186,12 @@ impl Prop for PSem {
         }
         depth_args(cfg, &mut args);
         args.push("-sorted".into());
+        if let Some(syn) = cfg.get("syn").and_then(|s| s.as_str()) {
+            if syn != "emacs" || cfg["nowoff"][1].as_i64().unwrap_or(0) % 2 == 1 {
+                args.push("-regextype".into());
+                args.push(syn.into());
+            }
+        }
         let words = arr(&input["words"]);
         if !words.is_empty() {
             // the options in front are and-ed with the whole expression
@@ -124,11 +202,21 @@ impl Prop for PSem {
             args.push(")".into());
         }
         let errf = dir.parent().unwrap().join("stderr.txt");
-        let r = run_find_inproc(&dir, &args, None, &errf);
+        let sysnow = std::time::UNIX_EPOCH + std::time::Duration::new(now.0 as u64, now.1 as u32);
+        let r = run_find_inproc(&dir, &args, Some(sysnow), &errf);
         if r.panicked {
             return json!({"panic": true, "args": args});
         }
-        json!({"out": bytes_to_json(&r.out), "exit": r.exit, "attrs": attrs, "diag": !r.stderr.is_empty()})
+        let mut files = vec![];
+        for f in 1..=2 {
+            match std::fs::read(dir.parent().unwrap().join(format!("F{}", f))) {
+                Ok(b) => files.push(json!({"there": true, "b": bytes_to_json(&b)})),
+                Err(_) => files.push(json!({"there": false, "b": []})),
+            }
+        }
+        let (users, groups) = known_ids();
+        json!({"out": bytes_to_json(&r.out), "files": files, "exit": r.exit, "attrs": attrs, "diag": !r.stderr.is_empty(),
+               "now": [now.0, now.1], "users": users, "groups": groups, "err": String::from_utf8_lossy(&r.stderr[..r.stderr.len().min(300)])})
     }
 
     fn gen(&mut self, rng: &mut Rng, idx: usize, tier: &str) -> Value {
@@ -136,12 +224,24 @@ impl Prop for PSem {
         let mut v = st.gen(rng, idx, tier);
         v.as_object_mut().unwrap().remove("test");
         let n = arr(&v["tree"]).len();
+        // the clock and the modification times: ages around the boundaries of the minute and day tests
+        let ages: [(i64, i64); 12] = [(0, 0), (0, 5), (59, 999_999_999), (60, 0), (60, 1), (119, 0), (3600, 0), (86399, 999_999_999), (86400, 0), (86400, 1), (172800, 0), (200000, 77)];
+        for i in 0..n {
+            if rng.chance(3, 4) {
+                let a = *rng.pick(&ages);
+                v["tree"][i]["age"] = json!([a.0, a.1]);
+            }
+        }
+        let syn = *rng.pick(&["emacs", "emacs", "posix-basic", "posix-extended", "grep", "sed"]);
+        v["cfg"]["syn"] = json!(syn);
+        v["cfg"]["nowoff"] = json!([*rng.pick(&[0i64, 30, 86400, 100000]), rng.below(1_000_000_000)]);
         // the shape of the expression from the C01 generator; its leaves become real primaries
         let mut toks: Vec<String> = vec![];
         let budget = 1 + rng.below(if tier == "thorough" { 10 } else { 6 });
         super::pexpr::gen_list(rng, &mut toks, budget, 0, 3, 2);
         let names: Vec<String> = arr(&v["tree"]).iter().map(|t| json_to_string(&t["name"])).collect();
         let mut words: Vec<Value> = vec![];
+        let mut free_files: Vec<u64> = vec![1, 2];
         for t in toks {
             let w = match t.as_str() {
                 "not" | "and" | "or" | "comma" | "lp" | "rp" => json!({"k": "op", "t": t}),
@@ -149,30 +249,34 @@ impl Prop for PSem {
                 "false" => json!({"k": "const", "v": false}),
                 "prune" => json!({"k": "prune"}),
                 "quit" => json!({"k": "quit"}),
-                x if x.starts_with('a') => match rng.below(4) {
-                    0 => json!({"k": "print", "delim": 10}),
-                    1 => json!({"k": "print", "delim": 0}),
-                    _ => {
-                        let mut fmt: Vec<u32> = vec![];
-                        for _ in 0..1 + rng.below(3) {
-                            match rng.below(6) {
-                                0 => fmt.extend([37, *rng.pick(&[112u32, 102, 80, 72, 100])]),
-                                1 => fmt.extend([37, *rng.pick(&[115u32, 109, 85, 71, 121, 110])]),
-                                2 => fmt.extend([37, 45, 53, 100]),
-                                3 => fmt.extend([92, *rng.pick(&[116u32, 92, 48])]),
-                                _ => fmt.push(*rng.pick(&[120u32, 58, 32, 233])),
+                x if x.starts_with('a') => {
+                    // standard output, or one of the two output files (each named by at most one action)
+                    let file = if !free_files.is_empty() && rng.chance(1, 3) { free_files.remove(rng.below(free_files.len())) } else { 0 };
+                    match rng.below(4) {
+                        0 => json!({"k": "print", "delim": 10, "file": file}),
+                        1 => json!({"k": "print", "delim": 0, "file": file}),
+                        _ => {
+                            let mut fmt: Vec<u32> = vec![];
+                            for _ in 0..1 + rng.below(3) {
+                                match rng.below(6) {
+                                    0 => fmt.extend([37, *rng.pick(&[112u32, 102, 80, 72, 100])]),
+                                    1 => fmt.extend([37, *rng.pick(&[115u32, 109, 85, 71, 121, 110])]),
+                                    2 => fmt.extend([37, 45, 53, 100]),
+                                    3 => fmt.extend([92, *rng.pick(&[116u32, 92, 48])]),
+                                    _ => fmt.push(*rng.pick(&[120u32, 58, 32, 233])),
+                                }
                             }
+                            fmt.extend([92, 110]);
+                            json!({"k": "printf", "fmt": fmt, "file": file})
                         }
-                        fmt.extend([92, 110]);
-                        json!({"k": "printf", "fmt": fmt})
                     }
-                },
-                _ => match rng.below(10) {
+                }
+                _ => match rng.below(16) {
                     0 | 1 => json!({"k": "test", "q": {"p": "type", "c": *rng.pick(&["d", "f", "l", "p", "s"])}}),
                     2 => json!({"k": "test", "q": {"p": "xtype", "c": *rng.pick(&["d", "f", "l"])}}),
                     3 => json!({"k": "test", "q": {"p": "perm", "kind": *rng.pick(&["exact", "all", "any"]), "m": *rng.pick(&[0u64, 0o644, 0o755, 0o4000, 0o700, 0o111, 0o22, 0o777])}}),
                     4 => json!({"k": "test", "q": {"p": *rng.pick(&["uid", "gid"]), "form": *rng.pick(&["eq", "gt", "lt"]), "n": *rng.pick(&[0u64, 1, 100, 1000, 54321])}}),
-                    5 => json!({"k": "test", "q": {"p": "size", "form": *rng.pick(&["eq", "gt", "lt"]), "n": *rng.pick(&[0u64, 1, 9, 10, 511, 4096])}}),
+                    5 => json!({"k": "test", "q": {"p": "size", "form": *rng.pick(&["eq", "gt", "lt"]), "n": *rng.pick(&[0u64, 1, 2, 9, 10, 511, 4096]), "unit": *rng.pick(&["c", "c", "w", "b", "k", "", "M"])}}),
                     6 => json!({"k": "test", "q": {"p": "empty"}}),
                     7 => json!({"k": "test", "q": {"p": "samefile", "ref": 1 + rng.below(n)}}),
                     8 => {
@@ -194,6 +298,37 @@ impl Prop for PSem {
                         }
                         json!({"k": "glob", "on": "path", "pat": pat, "fold": false})
                     }
+                    9 => json!({"k": "test", "q": {"p": "age", "kind": *rng.pick(&["m", "m", "c"]), "unit": *rng.pick(&["min", "day"]), "form": *rng.pick(&["eq", "gt", "lt"]), "n": *rng.pick(&[0u64, 1, 2, 60])}}),
+                    10 => json!({"k": "test", "q": {"p": "newer", "x": *rng.pick(&["m", "m", "c"]), "y": *rng.pick(&["m", "m", "c"]), "ref": 1 + rng.below(n)}}),
+                    11 => json!({"k": "test", "q": {"p": *rng.pick(&["nouser", "nogroup"])}}),
+                    12 => json!({"k": "test", "q": {"p": "links", "form": *rng.pick(&["eq", "gt", "lt"]), "n": *rng.pick(&[1u64, 2, 3])}}),
+                    13 => {
+                        // a regular expression over the whole path: ".*" + a literal tail, a literal path, or a small random tree
+                        let nm: Vec<u32> = rng.pick(&names).chars().map(|c| c as u32).collect();
+                        let litseq = |cs: &[u32]| -> Option<Value> {
+                            let mut it = cs.iter().map(|c| json!({"t": "c", "c": c}));
+                            let first = it.next()?;
+                            Some(it.fold(first, |a, b| json!({"t": "cat", "a": a, "b": b})))
+                        };
+                        let ast = match rng.below(4) {
+                            0 | 1 if !nm.is_empty() => {
+                                let tail = litseq(&nm).unwrap();
+                                let head = json!({"t": "star", "a": {"t": "any"}});
+                                json!({"t": "cat", "a": head, "b": tail})
+                            }
+                            2 => {
+                                let cs: Vec<u32> = nm.iter().copied().chain([47u32, 97, 98]).collect();
+                                json!({"t": "plus", "a": {"t": "set", "cs": cs, "neg": rng.chance(1, 4)}})
+                            }
+                            _ => {
+                                let size = 1 + rng.below(4);
+                                super::pregex::gen_ast(rng, size, &[97, 98, 47, 46, 100], !["posix-basic", "sed"].contains(&syn), syn != "emacs")
+                            }
+                        };
+                        let mut text: Vec<u32> = vec![];
+                        super::pregex::render(&ast, syn, &mut text);
+                        json!({"k": "regex", "ast": ast, "fold": rng.chance(1, 4), "text": text})
+                    }
                     _ => {
                         let pats: [&[u32]; 8] = [&[42], &[97, 42], &[63], &[42, 98, 42], &[91, 97, 45, 99, 93, 42], &[101], &[42, 46, 42], &[65, 42]];
                         json!({"k": "glob", "on": "name", "pat": rng.pick(&pats).to_vec(), "fold": rng.chance(1, 4)})
@@ -207,14 +342,38 @@ impl Prop for PSem {
     }
 
     fn same(&self, exp: &Value, obs: &Value) -> bool {
-        obs.get("panic").is_none() && obs["exit"].as_i64() == Some(0) && json_to_bytes(&exp["out"]) == json_to_bytes(&obs["out"])
+        // vectors from MC_Sem: standard output only, no failures
+        let files_ok = match exp.get("files") {
+            Some(f) => (0..2).all(|k| f[k]["there"] == obs["files"][k]["there"] && json_to_bytes(&f[k]["b"]) == json_to_bytes(&obs["files"][k]["b"])),
+            None => true,
+        };
+        obs.get("panic").is_none() && obs["exit"].as_i64() == Some(0) && json_to_bytes(&exp["out"]) == json_to_bytes(&obs["out"]) && files_ok
     }
 
     fn corrupt(&self, obs: &Value) -> Option<Value> {
         let mut o = obs.clone();
         let mut b = json_to_bytes(&o["out"]);
+        let pick = b.len() % 3;
+        if pick == 1 && o.get("files").is_some() {
+            // an output file: one byte more or less, or a file that should not be there
+            let k = if o["files"][0]["there"] == true { 0 } else { 1 };
+            let mut fb = json_to_bytes(&o["files"][k]["b"]);
+            if o["files"][k]["there"] == true && !fb.is_empty() {
+                fb.pop();
+            } else {
+                fb.push(b'x');
+            }
+            o["files"][k]["b"] = bytes_to_json(&fb);
+            o["files"][k]["there"] = json!(true);
+            return Some(o);
+        }
         if b.is_empty() {
             b.push(b'x');
+        } else if pick == 2 && b.len() > 1 {
+            b.swap(0, 1);
+            if b[0] == b[1] {
+                b[0] ^= 1;
+            }
         } else {
             b.pop();
         }
